@@ -557,7 +557,12 @@ class LambdaExpression(Expression):
                 expr,
             )
 
-        assert token.type_ == TokenType.LPAREN
+        if token.type_ != TokenType.LPAREN:
+            raise LiquidSyntaxError(
+                f"expected a lambda parameter list, found {token.type_.name}",
+                token=token,
+            )
+
         params: list[Identifier] = []
 
         while stream.current().type_ != TokenType.RPAREN:
